@@ -41,15 +41,47 @@ theorem C01_wf_reachable (m : CMap) (h : m.WF) (k v : Bytes) :
     (m.add k v).WF ∧ (m.set1 k v).WF ∧ (m.remove k).WF :=
   ⟨CMap.wf_add m k v h, CMap.wf_set1 m k v h, CMap.wf_remove m k h⟩
 
-/-- exclusions remove exactly the entries whose key equals an excluded key up to case
-    (or everything, for a bare `!VAR`), and `&` counts what is left -/
-theorem C01_getField (tx : Tx) (ecol : List (Var × Bytes)) (t : Target) :
-    let sel := select tx t.var (compiledKey t.var t.key)
+/-- C01_selection_rx: selecting by a regex key `VAR:/re/` returns exactly the entries whose
+    folded key the expression matches (every value of such a key, with the original-case key),
+    for every interpretation `p` of the expression -/
+theorem C01_selection_rx_map (m : CMap) (v : Var) (p : Bytes → Bool) (h : m.WF) :
+    findMapRx m v p = (m.all.filter (fun e => p (lower e.key))).map (fun e => ⟨v, e.key, e.value⟩) := by
+  unfold findMapRx
+  rw [CMap.bucketFilter_eq m p h]
+
+theorem C01_selection_rx_names (m : CMap) (v : Var) (p : Bytes → Bool) (h : m.WF) :
+    findNamesRx m v p = (m.all.filter (fun e => p (lower e.key))).map (fun e => ⟨v, e.key, e.key⟩) := by
+  unfold findNamesRx
+  rw [CMap.bucketFilter_eq m p h]
+
+/-- exclusions remove exactly the entries whose key equals an excluded key up to case, or whose
+    lower-cased key an excluded expression matches (or everything, for a bare `!VAR`); `&` counts
+    what is left; a regex-key target selects by its expression -/
+theorem C01_getField (env : Env) (tx : Tx) (ecol : List (Var × Exc)) (t : Target) :
     let excs := t.exc ++ (ecol.filter fun r => r.1 == t.var).map (·.2)
-    let kept := sel.filter (fun md => !(excs.any fun ex => ex.isEmpty || lower ex == lower md.key))
-    getField tx ecol t =
+    let kept := (selected env tx t).filter (fun md => !(excs.any fun ex => excMatches env ex md))
+    getField env tx ecol t =
       if t.count then [⟨t.var, compiledKey t.var t.key, natToBytes kept.length⟩] else kept := by
   simp only [getField, excluded]
+
+/-- what is selected before exclusions: by expression, or by key / everything -/
+theorem C01_selected_rx (env : Env) (tx : Tx) (t : Target) (p : Bytes) (h : t.rx = some p) :
+    selected env tx t = selectRx tx t.var (env.rx p) := by
+  unfold selected; rw [h]
+
+theorem C01_selected_key (env : Env) (tx : Tx) (t : Target) (h : t.rx = none) :
+    selected env tx t = select tx t.var (compiledKey t.var t.key) := by
+  unfold selected; rw [h]
+
+/-- a plain exception excludes by key up to case, the empty key meaning the whole variable -/
+theorem C01_key_exception (env : Env) (k : Bytes) (md : MD) :
+    excMatches env ⟨k, none⟩ md = (k.isEmpty || lower k == lower md.key) := rfl
+
+/-- a regex exception never acts through its (empty) key text: with an expression present the
+    expression alone decides (the run-time `ctl:ruleRemoveTargetById=…;VAR:/re/` records an empty
+    key, which must not mean "the whole variable") -/
+theorem C01_rx_exception_only_rx (env : Env) (k p : Bytes) (md : MD) :
+    excMatches env ⟨k, some p⟩ md = env.rx p (lower md.key) := rfl
 
 /-! ## one link: the match data are exactly the selected, transformed values the operator accepts -/
 
